@@ -81,9 +81,9 @@ pub open spec fn misc_line_test(sm: &StateMachine) -> bool {
 impl<'a> StateMachine<'a> {
     //@ stub src/delta.rs StateMachine::emit_line_unchanged spec=delta.emit_line_unchanged
     //@ fn src/handlers/diff_header_misc.rs StateMachine::test_diff_file_missing
-    //@| ensures r == (self.source == Source::DiffUnified && is_prefix("Only in "@, self.line@)),
+    //@| ensures r == (self.source == Source::DiffUnified && is_prefix("Only in "@, self.line@)),  // @C04,C10:only.in.lines.are.claimed.in.plain.diff.output.only
     //@ fn src/handlers/diff_header_misc.rs StateMachine::test_diff_is_binary
-    //@| ensures r == is_prefix("Binary files "@, self.line@),
+    //@| ensures r == is_prefix("Binary files "@, self.line@),  // @C04,C10,C14:the.binary.files.line.is.claimed.by.its.prefix
     //@ fn src/handlers/diff_header_misc.rs StateMachine::handle_diff_header_misc_line
     //@| requires srcinv(old(self)),
     //@| ensures !misc_line_test(old(self)) ==> r == Ok::<bool, std::io::Error>(false) && final(self).state == old(self).state && final(self).painter == old(self).painter && final(self).minus_file == old(self).minus_file && final(self).plus_file == old(self).plus_file,  // @C04:misc.line.decline.changes.nothing
@@ -99,7 +99,7 @@ impl<'a> StateMachine<'a> {
     //@ fn src/handlers/diff_header.rs StateMachine::handle_diff_header_mode_line spec=misc.handle_mode_line
 
     //@ fn src/handlers/submodule.rs StateMachine::test_submodule_short_line
-    //@| ensures r == submodule_short_test(self),
+    //@| ensures r == submodule_short_test(self),  // @C01,C04:submodule.commit.lines.are.claimed.by.their.form
     //@ fn src/handlers/submodule.rs StateMachine::handle_submodule_short_line spec=misc.handle_submodule_short
     //@after <<<self.painter.emit()?;>>>| let ghost h1 = self.painter.writer.hist(); assert(only_text_after(h1, h1));
     //@afterstmt <<<verif_write_display(>>>| proof { lemma_hist_lines_only_text(h1, self.painter.writer.hist()); }
@@ -115,7 +115,7 @@ impl<'a> StateMachine<'a> {
     //@rewrite <<<self.config .minus_style .paint(verif_take12(minus_commit))>>> => <<<verif_paint(self.config.minus_style, verif_take12(minus_commit))>>>
 
     //@ fn src/handlers/commit_meta.rs StateMachine::test_commit_meta_header_line
-    //@| ensures r == regex_is_match(&self.config.commit_regex, self.line@),
+    //@| ensures r == regex_is_match(&self.config.commit_regex, self.line@),  // @C04:a.commit.line.is.what.the.commit.regex.matches
     //@ fn src/handlers/commit_meta.rs StateMachine::_handle_commit_meta_header_line spec=misc._handle_commit_meta
     //@before <<<if self.config.commit_style.is_omitted>>>| assert(only_text_after(self.painter.writer.hist(), self.painter.writer.hist()));
     //@rewriteall <<<draw_fn(>>> => <<<verif_draw(&mut draw_fn,>>>
